@@ -431,6 +431,31 @@ def f61(x, y):
     return x
 
 
+@icontract.require(lambda x, *, _KWARGS: "z" in _KWARGS or x > 0, enabled=True)
+def f66(x, **kwargs):
+    return x
+
+
+@icontract.require(lambda *, _ARGS, y=1: len(_ARGS) > 5 + y, enabled=True)
+def f69(*args):
+    return args
+
+
+SHARED_REPR = reprlib.Repr()
+SHARED_REPR.maxlist = 4
+SHARED_REPR.maxstring = 20
+
+
+@icontract.require(lambda xs, s: len(xs) < 2 and len(s) < 2, a_repr=SHARED_REPR, enabled=True)
+def f67(xs, s):
+    return xs
+
+
+@icontract.require(lambda xs, s: len(xs) < 2 and len(s) < 2, enabled=True)
+def f68(xs, s):
+    return xs
+
+
 def _long_string():
     return "".join(chr(ord("a") + (i * 7) % 26) for i in range(300))
 
@@ -504,5 +529,7 @@ CASES = [
     {"id": "c63", "factory": "make_naming_kwargs", "fn": "make_naming_kwargs", "args": [], "kwargs": {"a": 1}, "names_kwargs": True},
     {"id": "c64", "factory": "make_plain", "fn": "make_plain", "args": [-1], "kwargs": {}},
     {"id": "c65", "factory": "make_plain_variadic", "fn": "make_plain_variadic", "args": [-1, 5], "kwargs": {"k": 1}},
+    {"id": "c66", "fn": "f66", "args": [], "kwargs": {"x": -1, "a": 1}, "names_kwargs": True},
+    {"id": "c69", "fn": "f69", "args": [1, 2], "kwargs": {}, "names_args": True},
     {"id": "c45", "fn": "f45", "args": [], "kwargs": {"x": 123456789012345678901234567890, "helper_fn": helper}, "a_repr": SMALL, "hidden": ["helper_fn"]},
 ]
